@@ -525,8 +525,26 @@ def _run(ctx, module, args):
     exp = getattr(module, 'EXPECTED_BRANCHES', None)
     if exp is not None:
         try:
-            exp = list(exp(ctx)) if callable(exp) else list(exp)
+            exp_fn = exp
+            exp = list(exp_fn(ctx)) if callable(exp_fn) else list(exp_fn)
             unhit = sorted(b for b in exp if not ctx.branches.get(b))
+            if unhit and ctx.tier == 'thorough' and not ctx.disagreements and not ctx.violations:
+                # a branch whose coverage depends on the random draw gets a second chance with
+                # a derived seed before the coverage obligation is declared broken (hits,
+                # violations and disagreements accumulate in the same context)
+                ctx.notes.append('coverage second pass for: ' + ', '.join(unhit[:10]))
+                ctx.rng = random.Random(hashlib.sha256(
+                    '{}:{}:coverage-retry'.format(ctx.pid, ctx.seed).encode()).digest())
+                try:
+                    module.run(ctx)
+                except DriverBroken:
+                    pass
+                exp = list(exp_fn(ctx)) if callable(exp_fn) else list(exp_fn)
+                unhit = sorted(b for b in exp if not ctx.branches.get(b))
+                for o in obligations:
+                    if o.name == 'correspondence(model vs /repo)':
+                        o.ok = not ctx.disagreements
+                        o.detail = '{} disagreements'.format(len(ctx.disagreements))
             ctx.extra['expected_model_branches'] = len(exp)
             ctx.extra['unhit_model_branches'] = unhit
             if ctx.tier == 'thorough':
